@@ -36,7 +36,11 @@ def render(st, n, opts=None):
     ins, outs = [], []
     for p in st["defPorts"][top - 1]:
         port_names.add(st["portData"][p - 1]["name"])
-        (ins if st["portAttr"][p - 1]["dir"] == 2 else outs).extend(port_bits(p))
+        dr = st["portAttr"][p - 1]["dir"]
+        if dr in (1, 2):
+            ins.extend(port_bits(p))
+        if dr in (1, 3, 0):              # an inout port is listed on both lines
+            outs.extend(port_bits(p))
     w(".inputs " + " ".join(ins))
     w(".outputs " + " ".join(outs))
     netname = {}
@@ -68,6 +72,8 @@ def render(st, n, opts=None):
     for i in kids:
         r = st["instRef"][i - 1]
         d = st["instData"][i - 1]
+        if opts.get("comments"):
+            w("#")                       # an EMPTY comment line directly ahead of the statement
         kw = ".gate" if d.get("k") == "g" else ".subckt"
         conns = []
         for p in st["defPorts"][r - 1]:
